@@ -64,8 +64,6 @@ package modeling
 //@   ensures result != nil ==> c.State == old(c.State) && (hasSched(c) ==> schedSame(c.TickingComponent.TickScheduler))
 //@   label C07.comp.ok.scheduler
 //@   ensures result == nil && hasSched(c) ==> c.TickingComponent.TickScheduler.nextTickTime == dto.Scheduler.NextTickTime && (c.TickingComponent.TickScheduler.hasScheduledTick <==> dto.Scheduler.HasScheduledTick) && c.TickingComponent.TickScheduler.lastRunTickTime == dto.Scheduler.LastRunTickTime && (c.TickingComponent.TickScheduler.hasRunTick <==> dto.Scheduler.HasRunTick)
-//@   label C07.comp.ok.state
-//@   ensures result == nil ==> c.State == state
 //@   label C07.comp.config
 //@   ensures c.spec == old(c.spec) && c.TickingComponent == old(c.TickingComponent)
 //@   assigns c.State, c.TickingComponent.TickScheduler.nextTickTime, c.TickingComponent.TickScheduler.hasScheduledTick, c.TickingComponent.TickScheduler.lastRunTickTime, c.TickingComponent.TickScheduler.hasRunTick, jsonEncTyp, jsonEncVal, jsonEncCount
